@@ -181,7 +181,7 @@ def scan_time_base(rep):
 
 def check_c13(prop, tier):
     rep = new_report(prop, tier, VERUS_TECH + " (unit run: loop invariant on the time base of the extracted Cpu::run) + mechanical scan that no other code assigns the time-base fields")
-    custom_check.run_verus_unit(rep, prop, "run", "Cpu::run")
+    custom_check.run_verus_unit(rep, prop, "run", "Cpu::run, ModuleManager::update_modules")
     scan_time_base(rep)
     # bounded stand-in through the real run() with the message-capture hook (real `sync:<total>` text, determinism)
     n, fails = native.c13_bounded()
@@ -292,7 +292,7 @@ def check_c15(prop, tier):
                     rep.auto_failed += 1
                     rep.extra_failed.append({"id": oid, "detail": "CBMC: FAILURE of automatic check '%s' at %s:%d in %s (harness %s, fully symbolic encoding)" % (fc["desc"], fc["file"], fc["line"], fc["func"], n), "unit": n, "function": fc["func"]})
         rep.notes.append("%d harnesses call every dispatch target of Cpu::exec with all words the dispatcher can hand to it (undefined encodings included)" % len(names))
-    for unit, fns in (("bus", "Bus::read, Bus::write, ioport helpers"), ("irq", "request_interrupt, try_interrupt"), ("run", "Cpu::run")):
+    for unit, fns in (("bus", "Bus::read, Bus::write, ioport helpers"), ("irq", "request_interrupt, try_interrupt"), ("run", "Cpu::run, ModuleManager::update_modules")):
         custom_check.run_verus_unit(rep, prop, unit, fns)
     rep.assumptions.append("overflow/shift checks are the overflow-checking build configuration; panic/bounds/unwrap/division checks hold for both configurations")
     rep.assumptions.append("control-channel lines are parsed inside the socket block of Cpu::run, which is outside this technique (C18 not applicable)")
@@ -332,7 +332,7 @@ CHECKS = {
 UNIT_SOURCES = {
     "bus": ["src/bus.rs", "src/ioport.rs", "src/memory.rs"],
     "irq": ["src/cpu/interrupt_controller.rs", "src/cpu.rs"],
-    "run": ["src/cpu.rs", "src/bus.rs"],
+    "run": ["src/cpu.rs", "src/bus.rs", "src/modules.rs"],
     "div": ["src/cpu/instruction/divxu.rs", "src/cpu/addressing_mode/rn.rs", "src/cpu/instruction.rs", "src/cpu.rs"],
 }
 
@@ -354,7 +354,10 @@ def extract_diff(unit):
             except Exception:
                 continue
         try:
-            gsig, gbody = extract.get_fn(text, name)
+            try:
+                gsig, gbody = extract.get_fn(text, name)
+            except Exception:
+                gsig, gbody = extract.get_fn(text, name + "_link")  # R6b: generated under this name
             gen_txt = gsig + " " + gbody
         except Exception:
             gen_txt = ""
